@@ -387,7 +387,7 @@ func (s *rsession) do(op *rop) bool {
 	s.o.count("op_" + cls + "_" + string(outs[0].k))
 	key := "reflect/" + s.si.id + "." + string(s.mi.md.Name()) + "/" + op.code
 	if op.code == "mut" && s.hs[op.r].valid && outs[0].k == 'M' && !outs[0].m.IsValid() {
-		key = "reflect/mutable-oneof-wrapper-nil" // Mutable of a oneof member whose wrapper holds nil returns a read-only message
+		key = "reflect/mutable-oneof-wrapper-nil" // Mutable returns a read-only message (fixed in /repo 79d5d55: wrapper holding nil)
 	}
 
 	// C09 on the way: reads of invalid (nil / read-only empty) receivers never panic, stores panic
@@ -440,11 +440,64 @@ func (s *rsession) do(op *rop) bool {
 	return true
 }
 
+// getters: the plain Go getters of the root struct show the state the reference holds (scalars: the value;
+// messages: nil exactly when unpopulated). Only when the history did not end on a disagreement.
+func (s *rsession) getters() {
+	if s.stopped || s.softRef || !s.mi.pulsar || !s.rootF.IsValid() {
+		return
+	}
+	defer func() {
+		if e := recover(); e != nil {
+			s.o.withKey("reflect/"+s.si.id+"."+string(s.mi.md.Name())+"/getter").prop("C08", false, fmt.Sprintf("%s: a Go getter panics: %v", s.replay(len(s.ops)-1), e))
+		}
+	}()
+	for _, fi := range s.mi.fields {
+		fd := fi.fd
+		if fd.IsList() || fd.IsMap() {
+			continue
+		}
+		name := s.mi.goType.Field(fi.sf).Name
+		if fi.oneofIdx >= 0 {
+			if fi.wrapper == nil {
+				continue
+			}
+			name = fi.wrapper.Elem().Field(0).Name
+		}
+		m := s.rootF.MethodByName("Get" + name)
+		if !m.IsValid() {
+			s.o.count("getter_missing")
+			continue
+		}
+		got := m.Call(nil)[0]
+		var g, want string
+		if isMsgKind(fd) {
+			g = fmt.Sprint(!got.IsNil())
+			want = fmt.Sprint(s.rootD.Has(fd))
+			if fi.oneofIdx >= 0 && s.rootD.Has(fd) {
+				continue // a wrapper may hold nil where the reference holds an empty message
+			}
+		} else {
+			v := scalarFromGo(fd, got)
+			if fd.Kind() == protoreflect.FloatKind {
+				v = vBits(float32Bits(got))
+			}
+			if v.K == 'n' {
+				v = vBytes(nil)
+			}
+			g = v.String()
+			want = scalarFromPR(fd, s.rootD.Get(fd)).String()
+		}
+		s.o.withKey("reflect/"+s.si.id+"."+string(s.mi.md.Name())+"/getter").prop("C08", g == want,
+			fmt.Sprintf("%s: afterwards the Go getter Get%s() shows %s, the reference holds %s", s.replay(len(s.ops)-1), name, g, want))
+	}
+}
+
 // finish writes the case line for the model
 func (s *rsession) finish() {
 	if len(s.ops) == 0 {
 		return
 	}
+	s.getters()
 	if s.initV != nil {
 		s.o.kase("HISTV", []string{s.si.id, strconv.Itoa(s.mi.idx), s.initV.String(), strings.Join(s.ops, ";")}, strings.Join(s.raw, ";"))
 	} else {
